@@ -7,7 +7,7 @@ use regex::Regex;
 
 use fnv::FnvHasher;
 
-use chrono::{Local, Datelike, Timelike, DurationRound, Duration, TimeZone};
+use chrono::{Local, Datelike, Timelike, DurationRound, Duration, TimeZone, NaiveDate};
 
 use itertools::Itertools;
 
@@ -485,31 +485,19 @@ impl<'a, T: ColumnProvider> ExpressionExecutionEngine<'a, T> {
                                         let trunc_timestamp = timestamp.duration_trunc(duration).map_err(|_| EvaluationError::FailedToTruncate)?;
                                         Ok(Value::Timestamp(trunc_timestamp))
                                     }
-                                    Err(NonDurationField::Year) => {
-                                        let trunc_timestamp = timestamp
-                                            .with_month(1).unwrap()
-                                            .with_day(1).unwrap()
-                                            .with_hour(0).unwrap()
-                                            .with_minute(0).unwrap()
-                                            .with_second(0).unwrap()
-                                            .with_nanosecond(0).unwrap();
-                                        Ok(Value::Timestamp(trunc_timestamp))
-                                    }
-                                    Err(NonDurationField::Month) => {
-                                        let trunc_timestamp = timestamp
-                                            .with_day(1).unwrap()
-                                            .with_hour(0).unwrap()
-                                            .with_minute(0).unwrap()
-                                            .with_second(0).unwrap()
-                                            .with_nanosecond(0).unwrap();
-                                        Ok(Value::Timestamp(trunc_timestamp))
-                                    }
-                                    Err(NonDurationField::Day) => {
-                                        let trunc_timestamp = timestamp
-                                            .with_hour(0).unwrap()
-                                            .with_minute(0).unwrap()
-                                            .with_second(0).unwrap()
-                                            .with_nanosecond(0).unwrap();
+                                    Err(field) => {
+                                        // Midnight at the start of the year, month or day in the local zone
+                                        let date = match field {
+                                            NonDurationField::Year => NaiveDate::from_ymd_opt(timestamp.year(), 1, 1),
+                                            NonDurationField::Month => NaiveDate::from_ymd_opt(timestamp.year(), timestamp.month(), 1),
+                                            NonDurationField::Day => Some(timestamp.date_naive())
+                                        };
+
+                                        // Where the clocks are turned back over that midnight it occurs twice (either is a valid answer, not a reason to fail)
+                                        let trunc_timestamp = date
+                                            .and_then(|date| date.and_hms_opt(0, 0, 0))
+                                            .and_then(|datetime| Local.from_local_datetime(&datetime).earliest())
+                                            .ok_or(EvaluationError::FailedToTruncate)?;
                                         Ok(Value::Timestamp(trunc_timestamp))
                                     }
                                 }
